@@ -39,3 +39,9 @@ func VerifC14Census(pool PacketPool, all []*Packet) (times []int, foreign int) {
 	}
 	return
 }
+
+// VerifC14InterfaceMetrics returns real interface metrics built from the package's metrics
+// registry (under the engine prometheus is a no-op package and all counters are inert).
+func VerifC14InterfaceMetrics() *InterfaceMetrics {
+	return newInterfaceMetrics(metrics, 1, 0, "", 0)
+}
